@@ -87,6 +87,7 @@ def _table_job(st):
         vm = run_comp(VonMisesTube(surface=s), {"nodes": nodes, "radius": np.array([rat(c["rad"])]), "disp": disp}, ["vonmises"])["vonmises"][0]
     else:
         s = _surf(2, "wingbox", rat(c["E"]), rat(c["G"]))
+        s["strength_factor_for_upper_skin"] = rat(c["tssf"])
         one = np.ones(1)
         vm = run_comp(
             VonMisesWingbox(surface=s),
